@@ -147,9 +147,9 @@ func Aggregate(files []SourceFile) []*ProgramData {
 		for name, v := range f.Counts {
 			n := ExpandStack(name)
 			if strings.Contains(n, "\n") {
-				pd.Stacks[n] += int64(v)
+				pd.Stacks[n] = satAddInt64(pd.Stacks[n], v)
 			} else {
-				pd.Counters[n] += int64(v)
+				pd.Counters[n] = satAddInt64(pd.Counters[n], v)
 			}
 		}
 	}
@@ -180,6 +180,18 @@ func (c *UploadConfig) Uploadable(data []*ProgramData, x float64) []*ProgramData
 		out = append(out, u)
 	}
 	return out
+}
+
+// satAddInt64 adds an unsigned counter value to a report value. Reports carry
+// signed 64-bit numbers; counter values saturate instead of wrapping (they do
+// so in the counter file at 2^64-1), so a sum beyond 2^63-1 is reported as
+// 2^63-1, never as a negative or a small number.
+func satAddInt64(a int64, v uint64) int64 {
+	const max = int64(^uint64(0) >> 1)
+	if v > uint64(max) || a > max-int64(v) {
+		return max
+	}
+	return a + int64(v)
 }
 
 func SortedKeys[V any](m map[string]V) []string {
